@@ -72,8 +72,9 @@ def generate(rng, tier, shard, nshards):
                 yield gops.event("ntw", {"sr": srn, "G": G, "ctx": ctx, "backend": be}, site=f"ntw[{be}]/Sat3", feat=feat)
 
 
-def rl_grammar(rng):
-    """A deterministic right-linear proper grammar over {a, b}: 2-3 states, every state can stop."""
+def rl_grammar(rng, rare=False):
+    """A deterministic right-linear proper grammar over {a, b}: 2-3 states, every state can stop.  rare: token a has
+    probability 1/1024 in every state (contexts of a few hundred tokens have probabilities far below 1e-600)."""
     n = rng.choice([1, 2, 3])
     names = [f"#{k}" for k in range(n)]
     rules = []
@@ -81,19 +82,24 @@ def rl_grammar(rng):
         toks = [t for t in ("a", "b") if rng.random() < 0.8] or ["a"]
         parts = rng.choice({1: [[[1, 2], [1, 2]], [[3, 4], [1, 4]], [[1, 4], [3, 4]]],
                             2: [[[1, 2], [1, 4], [1, 4]], [[1, 4], [1, 2], [1, 4]], [[3, 8], [3, 8], [1, 4]]]}[len(toks)])
+        if rare:
+            toks = ["a", "b"]
+            parts = rng.choice([[[1, 1024], [511, 1024], [1, 2]], [[1, 1024], [1, 1024], [511, 512]]])
         for t, w in zip(toks, parts):
             rules.append({"w": w, "h": X, "b": [t, rng.choice(names)]})
         rules.append({"w": parts[-1], "h": X, "b": []})
     return {"S": "#0", "V": ["a", "b"], "rules": rules}
 
 
-def viable_context(rng, G, n):
+def viable_context(rng, G, n, prefer=None):
     st, ctx = G["S"], []
     for _ in range(n):
         opts = [r for r in G["rules"] if r["h"] == st and r["b"]]
         if not opts:
             break
         r = rng.choice(opts)
+        if prefer is not None and rng.random() < 0.8:
+            r = ([x for x in opts if x["b"][0] == prefer] or [r])[0]
         ctx.append(r["b"][0])
         st = r["b"][1]
     return ctx
@@ -112,6 +118,14 @@ def long_context_events(rng, tier):
             out.append(gops.event("pnextrl", {"G": G, "ctx": ctx, "backend": backend,
                                               "stepwise": 50 if n >= 300 else rng.choice([0, 0, 50])},
                                   site=f"{backend}LM.p_next[long context]", feat=f"long-context-{n}", timeout=300))
+    for gi in range(3 if tier == "quick" else 12):
+        # contexts that keep taking a token of probability 1/1024: about 1e-720 after 300 tokens - only the rescaled
+        # parser is built for these
+        G = rl_grammar(rng, rare=True)
+        for n in (150, 300):
+            ctx = viable_context(rng, G, n, prefer="a")
+            out.append(gops.event("pnextrl", {"G": G, "ctx": ctx, "backend": "rescaled", "stepwise": 50},
+                                  site="rescaledLM.p_next[long improbable context]", feat=f"improbable-context-{n}", timeout=300))
     return out
 
 
@@ -171,14 +185,15 @@ def generation_model(report, tier):
     res = run_tlc("Generation", GEN_CFG % (ws, bs), timeout=3000, tag="generation")
     if not res.ok or res.left != 0:
         raise MachineryError("Generation.tla: design-level check failed (the model, not the code):\n" + res.errhead)
-    report.add_tlc(res, f"Generation.tla: all grammars with <= 2 rules over 2 nonterminals / 2 terminals, weights {ws}, "
-                        f"max_tokens in {bs}: Factorisation, StaysViable, CondSumsToOne, LengthBound, Terminates")
+    todo = []          # applied to the report by the main thread (this function runs in a background thread)
+    todo.append(lambda: report.add_tlc(res, f"Generation.tla: all grammars with <= 2 rules over 2 nonterminals / 2 terminals, weights {ws}, "
+                        f"max_tokens in {bs}: Factorisation, StaysViable, CondSumsToOne, LengthBound, Terminates"))
     behs = []
     for m in re.finditer(r'<<"BEH", "((?:[^"\\]|\\.)*)">>', res.out):
         behs.append(json.loads(json.loads('"' + m.group(1) + '"')))
     if len(behs) < 100:
         raise MachineryError(f"Generation.tla printed only {len(behs)} behaviours")
-    report.extra["tlc_behaviours_replayed_into_LM.sample"] = len(behs)
+    todo.append(lambda: report.extra.__setitem__("tlc_behaviours_replayed_into_LM.sample", len(behs)))
     out = []
     backends = ("earley", "rescaled", "cky")
     for i, b in enumerate(behs):
@@ -191,7 +206,7 @@ def generation_model(report, tier):
             out.append(gops.event("sample", {"sr": "Rat", "G": G, "script": script, "backend": be,
                                              "bound": None if b["bound"] == -1 else b["bound"]},
                                   site=f"{be}LM.sample[TLC behaviour]", feat="tlc-behaviour" + ("+forced-stop" if forced else "")))
-    return out
+    return out, todo
 
 
 def model_check(report, tier):
@@ -225,7 +240,10 @@ def run(report, tier, seed):
         th.join()
         if "error" in box:
             raise box["error"]
-        yield from box["events"]
+        events, todo = box["events"]
+        for f in todo:
+            f()
+        yield from events
 
     try:
         model_check(report, tier)
